@@ -229,10 +229,22 @@ def gen_pair(r):
     return old, join_lines(r, ls, style), "+".join(kinds)
 
 
+# Unicode White_Space other than the ASCII blanks: NBSP, ideographic space, LS, PS, NEL, VT, FF, EM SPACE, OGHAM
+USEPS = ["\u00a0", "\u3000", "\u2028", "\u2029", "\u0085", "\x0b", "\x0c", "\u2003", "\u1680", "\u202f",
+         " \u00a0", "\u3000 ", "\u00a0\u00a0", "\t\u2028", "\x0b "]
+ASEPS = [" ", "  ", " \t "]
+
+
 def gen_reformat(r):
-    """same whitespace-separated words, different layout.  (old, new, kind, words_per_old_line)"""
+    """same whitespace-separated words, different layout.  (old, new, kind, words_per_old_line, words_per_new_line)
+    `uni`: the blanks BETWEEN the words of a line are Unicode White_Space characters in the old text
+    (removed / replaced by ASCII blanks in the new one), in the new text (inserted), or in both."""
     distinct = r.chance(2, 3)
     blanks = r.chance(1, 2)
+    uni = r.weighted([(5, None), (3, "removed"), (2, "inserted"), (2, "both")])
+    if uni:
+        distinct = distinct or r.chance(1, 2)
+        blanks = blanks and r.chance(1, 3)
     nw = r.range(1, 14)
     if distinct:
         base = r.shuffle(WORDS + ["w%d" % i for i in range(10)])
@@ -240,7 +252,7 @@ def gen_reformat(r):
     else:
         words = [r.pick(WORDS[:8]) for _ in range(nw)]
 
-    def layout(ws, keep=None):
+    def layout(ws, keep=None, useps=False):
         lines, cur = [], []
         if keep is None:
             for w in ws:
@@ -257,17 +269,21 @@ def gen_reformat(r):
             if blanks and r.chance(1, 6):
                 text += r.pick(["", "  ", "\t"]) + "\n"
                 struct.append([])
-            text += r.pick(["", "  ", "\t", "    "]) + r.pick([" ", "  ", " \t "]).join(lw) + r.pick(["", " ", "\t"]) + "\n"
+            body = lw[0]
+            for w in lw[1:]:
+                body += (r.pick(USEPS) if useps and r.chance(2, 3) else r.pick(ASEPS)) + w
+            text += r.pick(["", "  ", "\t", "    "]) + body + r.pick(["", " ", "\t"]) + "\n"
             struct.append(lw)
         return text, struct
-    old, so = layout(words)
-    if r.chance(1, 2):
-        new, sn = layout(words, [l for l in so if l])
+    old, so = layout(words, None, uni in ("removed", "both"))
+    if r.chance(1, 2) or (uni and r.chance(1, 2)):
+        new, sn = layout(words, [l for l in so if l], uni in ("inserted", "both"))
         kind = "reindent"
     else:
-        new, sn = layout(words)
+        new, sn = layout(words, None, uni in ("inserted", "both"))
         kind = "rewrap"
-    return old, new, kind + ("/distinct" if distinct else "/dups") + ("/blanks" if blanks else ""), so, sn
+    return (old, new, kind + ("/distinct" if distinct else "/dups") + ("/blanks" if blanks else "")
+            + ("/uni-" + uni if uni else ""), so, sn)
 
 
 def cb_positions(bs):
@@ -610,7 +626,7 @@ def run(ctx):
         bump(dist["pair_kinds"], kind.split("+")[0].split(":")[0])
         bump(dist["attr_kinds"], ak)
     # reformat cases
-    n_rf = 400 if quick else 12000
+    n_rf = 700 if quick else 20000
     for i in range(n_rf):
         o, n, kind, so, sn = gen_reformat(r)
         ob = list(o.encode())
@@ -621,7 +637,7 @@ def run(ctx):
             t = r.range(1, 50)
             line_auth.append((x, t))
             at.append((s, e, x, t))
-        cases.append({"id": f"rf{i}", "old": o, "new": n, "attrs": at, "author": r.pick(["ai_9", HUMAN]), "ts": 100,
+        cases.append({"id": f"rf{i}", "old": o, "new": n, "attrs": at, "author": r.weighted([(3, "ai_9"), (1, HUMAN)]), "ts": 100,
                       "kind": "reformat:" + kind, "akind": "tiling", "so": so, "sn": sn, "line_auth": line_auth})
         bump(dist["reformat_kinds"], kind)
     # thresholds of compute_diffs / should_skip_move_detection, hit deliberately (thorough tier only:
@@ -659,7 +675,7 @@ def run(ctx):
     rule_hist = {}
     cnt_del = [0]
     known_hist = {}
-    cnt = {"k1": 0, "fit_bad": 0, "moves": 0, "known": 0}
+    cnt = {"k1": 0, "fit_bad": 0, "moves": 0, "known": 0, "uni_lines": 0}
     hit = {"wf_diff": 0, "moves_ok": 0, "moves_fit": 0, "moves_same_len": 0, "priors_ordered": 0}
     all_impl = {}
 
@@ -741,6 +757,8 @@ def run(ctx):
                     pos += len(lw)
                     g = got.get(ln_no, HUMAN)
                     allowed = set(x for x, _ in auths)
+                    if "/uni-" in c["kind"] and c["author"] not in allowed:
+                        cnt["uni_lines"] += 1
                     if g not in allowed:
                         cls = K5 if subst_any else None
                         findings.append((f"whitespace-only reformat: line {ln_no} of new ({' '.join(lw)!r}) had authors "
@@ -1000,6 +1018,7 @@ def run(ctx):
             "synthetic_panics_in_impl": n_tpanic,
             "oracle_failures_in_known_classes": n_known,
             "oracle_failures_by_class": known_hist,
+            "reformat_lines_with_unicode_blanks_checked_against_another_reporting_author": cnt["uni_lines"],
             "transform_rules_exercised": rule_hist,
             "correspondence_mismatches": len(mism),
         },
